@@ -1,7 +1,7 @@
 """C09 – most_specific mode picks the most specific matching rule, whatever the order (spec modules Engine, MC_Specific)."""
 import core
 import tlc
-from props import engine_common
+from props import engine_common, engine_tracecheck
 
 
 def run(ck):
@@ -18,4 +18,6 @@ def run(ck):
                         'of priority > pattern count > constraint kinds > literal length) x 3 category/subcategory settings x 2 atoms, '
                         'plus tag-only rules, in every order; and the generic Engine universe in most_specific mode. '
                         'non-trivial = at least two rules match')
+    # code -> spec: random files over the full concrete grammar, recorded from the real code, validated by Trace_Engine
+    engine_tracecheck.run(ck, 'c09', 1600 if quick else 16000)
     ck.exhaustive = True
